@@ -91,6 +91,30 @@ Fixpoint pp (slot : nat) (e : expr) {struct e} : list pt :=
         | [x] => PK "(" :: pp slot_Tuple_elt x ++ [PK ","; PK ")"]
         | _ => PK "(" :: join [PK ","] (map (pp slot_Tuple_elt) l) ++ [PK ")"]
         end
+    | EDict ks vs => PK "{" :: join [PK ","] ((fix go (ks : list (option expr)) (vt st : list (list pt)) : list (list pt) :=
+                  match ks, vt, st with
+                  | Some k :: ks', v :: vt', _ :: st' => (pp slot_Dict_key k ++ PK ":" :: v) :: go ks' vt' st'
+                  | None :: ks', _ :: vt', v :: st' => (PK "**" :: v) :: go ks' vt' st'
+                  | _, _, _ => []
+                  end) ks (map (pp slot_Dict_value) vs) (map (pp slot_Dict_starvalue) vs)) ++ [PK "}"]
+    | DictComp k v gs => PK "{" :: pp slot_DictComp_key k ++ PK ":" :: pp slot_DictComp_value v ++ (flat_map (fun g => match g with
+                                        | (t, i, ifs, a) =>
+                                            (if a : bool then [PK "async"] else []) ++
+                                            PK "for" :: pp slot_comp_target t ++ PK "in" :: pp slot_comp_iter i ++
+                                            flat_map (fun c => PK "if" :: pp slot_comp_if c) ifs
+                                        end) gs) ++ [PK "}"]
+    | ListComp x gs => PK "[" :: pp slot_ListComp_elt x ++ (flat_map (fun g => match g with
+                                        | (t, i, ifs, a) =>
+                                            (if a : bool then [PK "async"] else []) ++
+                                            PK "for" :: pp slot_comp_target t ++ PK "in" :: pp slot_comp_iter i ++
+                                            flat_map (fun c => PK "if" :: pp slot_comp_if c) ifs
+                                        end) gs) ++ [PK "]"]
+    | SetComp x gs => PK "{" :: pp slot_SetComp_elt x ++ (flat_map (fun g => match g with
+                                        | (t, i, ifs, a) =>
+                                            (if a : bool then [PK "async"] else []) ++
+                                            PK "for" :: pp slot_comp_target t ++ PK "in" :: pp slot_comp_iter i ++
+                                            flat_map (fun c => PK "if" :: pp slot_comp_if c) ifs
+                                        end) gs) ++ [PK "}"]
     | Subscript v s => pp slot_Subscript_value v ++ PK "[" :: pp slot_Subscript_slice s ++ [PK "]"]
     | _ => []
     end in
@@ -101,6 +125,24 @@ Definition kwp (kw : option ident * expr) : list pt :=
   | (None, v) => PK "**" :: pp slot_Call_kwarg v
   | (Some k, v) => PN k :: PK "=" :: pp slot_Call_kwarg v
   end.
+
+Definition gtok (g : comprehension) : list pt :=
+  match g with
+  | (t, i, ifs, a) =>
+      (if a : bool then [PK "async"] else []) ++
+      PK "for" :: pp slot_comp_target t ++ PK "in" :: pp slot_comp_iter i ++
+      flat_map (fun c => PK "if" :: pp slot_comp_if c) ifs
+  end.
+Definition gtoks (gs : list comprehension) : list pt := flat_map gtok gs.
+
+Fixpoint ditems_t (ks : list (option expr)) (vt st : list (list pt)) : list (list pt) :=
+  match ks, vt, st with
+  | Some k :: ks', v :: vt', _ :: st' => (pp slot_Dict_key k ++ PK ":" :: v) :: ditems_t ks' vt' st'
+  | None :: ks', _ :: vt', v :: st' => (PK "**" :: v) :: ditems_t ks' vt' st'
+  | _, _, _ => []
+  end.
+Definition ditems (ks : list (option expr)) (vs : list expr) : list (list pt) :=
+  ditems_t ks (map (pp slot_Dict_value) vs) (map (pp slot_Dict_starvalue) vs).
 
 Definition pbody (e : expr) : list pt :=
   match e with
@@ -134,6 +176,10 @@ Definition pbody (e : expr) : list pt :=
       | [x] => PK "(" :: pp slot_Tuple_elt x ++ [PK ","; PK ")"]
       | _ => PK "(" :: join [PK ","] (map (pp slot_Tuple_elt) l) ++ [PK ")"]
       end
+  | EDict ks vs => PK "{" :: join [PK ","] (ditems ks vs) ++ [PK "}"]
+  | DictComp k v gs => PK "{" :: pp slot_DictComp_key k ++ PK ":" :: pp slot_DictComp_value v ++ gtoks gs ++ [PK "}"]
+  | ListComp x gs => PK "[" :: pp slot_ListComp_elt x ++ gtoks gs ++ [PK "]"]
+  | SetComp x gs => PK "{" :: pp slot_SetComp_elt x ++ gtoks gs ++ [PK "}"]
   | Subscript v s => pp slot_Subscript_value v ++ PK "[" :: pp slot_Subscript_slice s ++ [PK "]"]
   | _ => []
   end.
@@ -142,6 +188,10 @@ Proof. destruct e; reflexivity. Qed.
 
 (* the core: the node kinds above, in the shapes the parser produces *)
 Definition is_starred (e : expr) : bool := match e with Starred _ => true | _ => false end.
+Definition is_name (e : expr) : bool := match e with Name _ => true | _ => false end.
+(* targets of comprehension clauses: a name, or a flat tuple / list of names *)
+Definition is_target (t : expr) : bool :=
+  match t with Name _ => true | ETuple l | EList l => forallb is_name l | _ => false end.
 
 (* [core e]: e is in the core; a starred expression only as an element of a display or a call.  Operand positions use
    [core x && negb (is_starred x)]. *)
@@ -163,6 +213,24 @@ Fixpoint core (e : expr) {struct e} : bool :=
   | Starred v => ec v
   | EList l | ETuple l => forallb core l
   | ESet l => Nat.leb 1 (length l) && forallb core l
+  | EDict ks vs =>
+      Nat.eqb (length ks) (length vs) &&
+      forallb (fun k => match k with Some x => core x && negb (is_starred x) | None => true end) ks &&
+      forallb (fun x => core x && negb (is_starred x)) vs
+  | DictComp k v gs =>
+      ec k && ec v && Nat.leb 1 (length gs) &&
+      forallb (fun g => match g with
+                        | (t, i, ifs, a) =>
+                            core t && is_target t && core i && negb (is_starred i) &&
+                            forallb (fun c => core c && negb (is_starred c)) ifs && negb a
+                        end) gs
+  | ListComp x gs | SetComp x gs =>
+      ec x && Nat.leb 1 (length gs) &&
+      forallb (fun g => match g with
+                        | (t, i, ifs, a) =>
+                            core t && is_target t && core i && negb (is_starred i) &&
+                            forallb (fun c => core c && negb (is_starred c)) ifs && negb a
+                        end) gs
   | _ => false
   end.
 Definition ecore (e : expr) : bool := core e && negb (is_starred e).
@@ -175,7 +243,11 @@ Inductive mode :=
 | MLoop (n : nat) (lft : expr) (ch : chain)  (* what may follow [lft] at level n *)
 | MAtom
 | MElems (close : string) (acc : list expr) (comma : bool)   (* elements of a display / parenthesised form up to [close] *)
-| MArgs (acc : list expr) (kws : list (option ident * expr)).  (* the rest of a call's arguments *)
+| MArgs (acc : list expr) (kws : list (option ident * expr))   (* the rest of a call's arguments *)
+| MGens (acc : list comprehension)                             (* comprehension clauses: `for t in i if c ...` *)
+| MIfs (t i : expr) (ifs : list expr) (acc : list comprehension)
+| MDict (ks : list (option expr)) (vs : list expr)               (* a dict display before an item *)
+| MDSep (ks : list (option expr)) (vs : list expr).              (* ... after an item *)
 
 Definition lambda0 (b : expr) : expr := Lambda [] [] None [] [] None [] b.
 
@@ -253,13 +325,37 @@ Fixpoint pc (f : nat) (m : mode) (ts : list pt) {struct f} : option (expr * list
             else if String.eqb s "[" then
               match pc f' (MElems "]" [] false) r with
               | Some (ETuple l, r') => Some (EList l, r')
+              | Some (GeneratorExp x gs, r') => Some (ListComp x gs, r')
               | _ => None
               end
             else if String.eqb s "{" then
-              match pc f' (MElems "}" [] false) r with
-              | Some (ETuple (x :: l), r') => Some (ESet (x :: l), r')
-              | _ => None
-              end
+              let set_path :=
+                match pc f' (MElems "}" [] false) r with
+                | Some (ETuple (x :: l), r') => Some (ESet (x :: l), r')
+                | Some (GeneratorExp x gs, r') => Some (SetComp x gs, r')
+                | _ => None
+                end in
+              if hd_is "}" r then Some (EDict [] [], tl r)
+              else if hd_is "**" r then pc f' (MDict [] []) r
+              else if hd_is "*" r then set_path
+              else
+                match pc f' (MExpr TOP) r with
+                | Some (k, PK s1 :: r1) =>
+                    if String.eqb s1 ":" then
+                      match pc f' (MExpr TOP) r1 with
+                      | Some (v, PK s2 :: r2) =>
+                          if String.eqb s2 "for" then
+                            match pc f' (MGens []) (PK s2 :: r2) with
+                            | Some (GeneratorExp _ gens, PK s3 :: r3) =>
+                                if String.eqb s3 "}" then Some (DictComp k v gens, r3) else None
+                            | _ => None
+                            end
+                          else pc f' (MDSep [Some k] [v]) (PK s2 :: r2)
+                      | _ => None
+                      end
+                    else set_path
+                | _ => None
+                end
             else None
         | [] => None
         end
@@ -277,9 +373,65 @@ Fixpoint pc (f : nat) (m : mode) (ts : list pt) {struct f} : option (expr * list
               if String.eqb s "," then pc f' (MElems close (e :: acc) true) r
               else if String.eqb s close then
                 match finish close (e :: acc) comma with Some x => Some (x, r) | None => None end
+              else if String.eqb s "for" then
+                match acc with
+                | [] =>
+                    if is_starred e then None
+                    else match pc f' (MGens []) (PK s :: r) with
+                         | Some (GeneratorExp _ gens, PK s2 :: r2) =>
+                             if String.eqb s2 close then Some (GeneratorExp e gens, r2) else None
+                         | _ => None
+                         end
+                | _ => None
+                end
               else None
           | _ => None
           end
+    | MGens acc =>
+        if hd_is "for" ts then
+          match pc f' (MExpr slot_Compare_left) (tl ts) with        (* the target stops before `in` *)
+          | Some (t, PK s :: r) =>
+              if String.eqb s "in" then
+                match pc f' (MExpr slot_comp_iter) r with
+                | Some (i, r') => pc f' (MIfs t i [] acc) r'
+                | None => None
+                end
+              else None
+          | _ => None
+          end
+        else Some (GeneratorExp (Name "") (rev acc), ts)
+    | MIfs t i ifs acc =>
+        if hd_is "if" ts then
+          match pc f' (MExpr slot_comp_if) (tl ts) with
+          | Some (c, r) => pc f' (MIfs t i (c :: ifs) acc) r
+          | None => None
+          end
+        else pc f' (MGens ((t, i, rev ifs, false) :: acc)) ts
+    | MDict ks vs =>
+        if hd_is "}" ts then Some (EDict (rev ks) (rev vs), tl ts)
+        else if hd_is "**" ts then
+          match pc f' (MExpr slot_Dict_starvalue) (tl ts) with
+          | Some (v, r) => pc f' (MDSep (None :: ks) (v :: vs)) r
+          | None => None
+          end
+        else
+          match pc f' (MExpr TOP) ts with
+          | Some (k, PK s1 :: r1) =>
+              if String.eqb s1 ":" then
+                match pc f' (MExpr TOP) r1 with
+                | Some (v, r2) => pc f' (MDSep (Some k :: ks) (v :: vs)) r2
+                | None => None
+                end
+              else None
+          | _ => None
+          end
+    | MDSep ks vs =>
+        match ts with
+        | PK s :: r =>
+            if String.eqb s "," then pc f' (MDict ks vs) r
+            else if String.eqb s "}" then Some (EDict (rev ks) (rev vs), r) else None
+        | _ => None
+        end
     | MExpr n =>
         match classify_prefix ts with
         | PLam r =>
